@@ -235,6 +235,6 @@ theorem ft_per_m_literal :
     name, whatever inputs the harness happens to generate. -/
 theorem hidden_state_reviewed :
     Gen.HiddenState.sitesIn ["decode/mod.rs", "decode/bds/bds05.rs"] =
-      [("decode/mod.rs", "static CONFIG: OnceCell<SerializeConfig> = OnceCell::new();")] := by decide
+      [("decode/mod.rs", "static CONFIG:OnceCell<SerializeConfig>=OnceCell::new();")] := by decide
 
 end Rs1090.Props.C13
